@@ -83,14 +83,7 @@ func ProfilePayload(t *rapid.T, label string, n int) []byte {
 	}
 	p := build.SimpleProfile(desc, n-over)
 	if rapid.Bool().Draw(t, label+"hdrenums") {
-		// the enumerated header fields over their legal values: profile class, data colour space, connection space,
-		// version, platform (a grey profile in a colour image, a printer profile, a v2 link ... are all the image
-		// author's business, not the container's)
-		copy(p[12:16], rapid.SampledFrom([]string{"scnr", "mntr", "prtr", "link", "spac", "abst", "nmcl"}).Draw(t, label+"class"))
-		copy(p[16:20], rapid.SampledFrom([]string{"GRAY", "GRAY", "RGB ", "CMYK", "Lab ", "XYZ ", "YCbr", "Luv ", "Yxy ", "HSV ", "HLS ", "CMY ", "2CLR", "6CLR", "FCLR"}).Draw(t, label+"space"))
-		copy(p[20:24], rapid.SampledFrom([]string{"XYZ ", "Lab "}).Draw(t, label+"pcs"))
-		copy(p[8:12], rapid.SampledFrom([]string{"\x02\x10\x00\x00", "\x02\x40\x00\x00", "\x04\x00\x00\x00", "\x04\x20\x00\x00", "\x04\x30\x00\x00", "\x04\x40\x00\x00", "\x05\x00\x00\x00"}).Draw(t, label+"version"))
-		copy(p[40:44], rapid.SampledFrom([]string{"APPL", "MSFT", "SGI ", "SUNW", "\x00\x00\x00\x00"}).Draw(t, label+"platform"))
+		HeaderFields(t, label, p)
 	}
 	if rapid.Bool().Draw(t, label+"hdrfields") {
 		copy(p[44:48], Payload(t, label+"flags", 4))
@@ -111,6 +104,40 @@ func ProfilePayload(t *rapid.T, label string, n int) []byte {
 		p = append(p, make([]byte, rapid.SampledFrom([]int{1, 2, 3, 4, 64}).Draw(t, label+"zeropad"))...) // padding to an alignment
 	}
 	return p
+}
+
+// HeaderFields overwrites the enumerated and calendar fields of the 128-byte header at the start of p with legal
+// values: profile class, data colour space, connection space, version, platform, rendering intent, creation date
+// and time (any calendar date from 1990 to 2099, leap days and year ends among them, or the all-zero date).  A
+// grey profile in a colour image, a printer profile, a v2 link ... are the image author's business, not the
+// container's or the reader's.
+func HeaderFields(t *rapid.T, label string, p []byte) {
+	if len(p) < 128 {
+		return
+	}
+	copy(p[12:16], rapid.SampledFrom([]string{"scnr", "mntr", "prtr", "link", "spac", "abst", "nmcl"}).Draw(t, label+"class"))
+	copy(p[16:20], rapid.SampledFrom([]string{"GRAY", "GRAY", "RGB ", "CMYK", "Lab ", "XYZ ", "YCbr", "Luv ", "Yxy ", "HSV ", "HLS ", "CMY ", "2CLR", "6CLR", "FCLR"}).Draw(t, label+"space"))
+	copy(p[20:24], rapid.SampledFrom([]string{"XYZ ", "Lab "}).Draw(t, label+"pcs"))
+	copy(p[8:12], rapid.SampledFrom([]string{"\x02\x10\x00\x00", "\x02\x40\x00\x00", "\x04\x00\x00\x00", "\x04\x20\x00\x00", "\x04\x30\x00\x00", "\x04\x40\x00\x00", "\x05\x00\x00\x00"}).Draw(t, label+"version"))
+	copy(p[40:44], rapid.SampledFrom([]string{"APPL", "MSFT", "SGI ", "SUNW", "\x00\x00\x00\x00"}).Draw(t, label+"platform"))
+	binary.BigEndian.PutUint32(p[64:], uint32(rapid.IntRange(0, 3).Draw(t, label+"intent")))
+	var d [6]int
+	switch rapid.IntRange(0, 5).Draw(t, label+"datekind") {
+	case 0: // not set
+	case 1: // leap days and their neighbours, century years among them
+		y := rapid.SampledFrom([]int{1992, 1996, 2000, 2000, 2004, 2020, 2024, 2096}).Draw(t, label+"leapyear")
+		d = [6]int{y, 2, 29, rapid.IntRange(0, 23).Draw(t, label+"h"), rapid.IntRange(0, 59).Draw(t, label+"mi"), rapid.IntRange(0, 59).Draw(t, label+"s")}
+	case 2: // ends of months and years, last second of the day
+		m := rapid.IntRange(1, 12).Draw(t, label+"month")
+		last := []int{31, 28, 31, 30, 31, 30, 31, 31, 30, 31, 30, 31}[m-1]
+		d = [6]int{rapid.IntRange(1990, 2099).Draw(t, label+"year"), m, last, 23, 59, 59}
+	default:
+		d = [6]int{rapid.IntRange(1990, 2099).Draw(t, label+"year"), rapid.IntRange(1, 12).Draw(t, label+"month"), rapid.IntRange(1, 28).Draw(t, label+"day"),
+			rapid.IntRange(0, 23).Draw(t, label+"h"), rapid.IntRange(0, 59).Draw(t, label+"mi"), rapid.IntRange(0, 59).Draw(t, label+"s")}
+	}
+	for i, v := range d {
+		binary.BigEndian.PutUint16(p[24+2*i:], uint16(v))
+	}
 }
 
 var sizeSpecials = []int{1, 2, 3, 255, 256, 511, 512, 1023, 1024, 2047, 2048, 4095, 4096, 4097, 8191, 8192, 8193, 16383, 16384, 32767, 32768, 65518, 65519, 65520, 65521, 65535, 65536, 65537, 131037, 131038, 131039, 131072, 262144, 1<<20 - 1, 1 << 20}
